@@ -15,6 +15,7 @@
  R6 applied       : compute_nli's result reaches add_nli unchanged, and add_nli moves exactly that amount (shared with C01-R3).
  Rn arg roles     : a variable named like a parameter of the callee is handed to that parameter (no exchanged roles).
  R7 fibre inputs  : f_ref x lambda_ref = c for every input form; NLI evaluated after input connector + padding (shared with C05-R1).
+ Rs2 fibre tables  : the per-frequency fibre parameters are interpolated on an ascending abscissa (rule shared with C05).
 """
 import ast
 from fractions import Fraction
@@ -327,6 +328,15 @@ def r7_fibre_inputs(ctx):
     ctx.need('R7.ref-point', 2)
 
 
+
+def rs_fibre_tables(ctx):
+    """Rs (fibre tables): the per-frequency fibre parameters the NLI reads (dispersion, loss, gamma) are interpolated on an
+    abscissa known to be ascending (shared with C05)"""
+    from .c05 import rs_sorted as _rs
+    from .common import proxy
+    _rs(proxy(ctx, 'Rs2'))
+
+
 from ..memo import rule_for as _memo_rule
 
 RULES_MEMO = ('Rm.memo', _memo_rule('C03', 'the NLI of another fibre configuration or spectrum would be applied'))
@@ -336,4 +346,4 @@ from ..presence import rule_for as _presence_rule
 
 RULES_PRESENCE = ('Rp.presence', _presence_rule('C03', 'a fibre given an explicit 0 would get the default model instead'))
 
-RULES = [('R5.order-independence', r5_sorted), ('R1.closed-form', r1_closed_form), ('R2.combination', r2_combination), ('R3.coefficients', r3_coefficients), RULES_MEMO, RULES_PRESENCE, ('Rs.sorted-abscissa', rs_sorted), ('R6.applied', r6_applied), ('Rn.arg-roles', rn_arg_roles), ('R7.fibre-inputs', r7_fibre_inputs)]
+RULES = [('R5.order-independence', r5_sorted), ('R1.closed-form', r1_closed_form), ('R2.combination', r2_combination), ('R3.coefficients', r3_coefficients), RULES_MEMO, RULES_PRESENCE, ('Rs.sorted-abscissa', rs_sorted), ('R6.applied', r6_applied), ('Rn.arg-roles', rn_arg_roles), ('R7.fibre-inputs', r7_fibre_inputs), ('Rs2.sorted-abscissa', rs_fibre_tables)]
